@@ -378,7 +378,27 @@ func (s *ServerBase) acceptMsg(m *dns.Msg) (action dns.MsgAcceptAction) {
 		return dns.MsgReject
 	}
 
+	// There must be no more than one OPT record.  See RFC 6891, section 6.1.1.
+	if hasMultipleOPT(m) {
+		log.Debug("[%d]: message rejected due to wrong number of OPT records", m.Id)
+
+		return dns.MsgReject
+	}
+
 	return dns.MsgAccept
+}
+
+// hasMultipleOPT returns true if m has more than one OPT record in its
+// additional section.
+func hasMultipleOPT(m *dns.Msg) (ok bool) {
+	n := 0
+	for _, rr := range m.Extra {
+		if rr.Header().Rrtype == dns.TypeOPT {
+			n++
+		}
+	}
+
+	return n > 1
 }
 
 // handlePanicAndExit writes panic info to log, reports it to the registered
